@@ -43,6 +43,8 @@ class CBFSystem(System):
             for s in strats:
                 cfgs.append(dict(n=n, p=p, strat=s, depth=depth, seed=seed, m=m, k=k, nkeys=3 if tier == "quick" else 4,
                                  cost=m * k * (2 if s != "table" else 1)))
+        if prop == "C06":
+            cfgs = [c for c in cfgs if c["strat"] == "fnv"]  # the C reference implements the documented FNV-1a rule
         if seed:
             r = seed % len(cfgs)
             cfgs = cfgs[r:] + cfgs[:r]
